@@ -433,7 +433,7 @@ class Component( ComponentLevel7 ):
         for func, reads in getattr( host._dsl, "func_reads", {} ).items():
           to_save = set()
           for x in reads:
-            if x in removed_connectables:
+            if x in removed_readables:
               to_save.add( x )
               saved_func_reads.append( (func, repr(x)) )
           host._dsl.func_reads[func] -= to_save
